@@ -42,6 +42,21 @@ class ActBase(BaseException):
     pass
 
 
+def _callable_object(inner: Any) -> Any:
+    import inspect
+
+    if inspect.iscoroutinefunction(inner):
+        class _AsyncStopper:
+            async def __call__(self) -> None:
+                await inner()
+        return _AsyncStopper()
+
+    class _Stopper:
+        def __call__(self) -> None:
+            inner()
+    return _Stopper()
+
+
 @st.composite
 def cases(draw: Any, tier: str) -> dict:
     d = D(draw)
@@ -63,6 +78,7 @@ def cases(draw: Any, tier: str) -> dict:
             beh = d.pick(["self_end", "until_told", "until_cancel"])
         dd = d.pick([x for x in (1, 3, 5, 7) if x != body_sleep])
         r: dict[str, Any] = {"k": "svc", "action": action, "beh": beh, "d": dd, "c": d.weighted([(0, 30), (1, 35), (2, 20), (3, 15)]),
+                             "shape": d.weighted([("function", 65), ("object", 20), ("partial", 15)]),
                              "started": d.pct(30), "inner_td": d.pct(40), "via": d.pick(["module", "method"])}
         if not crashed and body_sleep > 0 and d.pct(6):
             r["beh"] = "crash"
@@ -239,6 +255,13 @@ class Interp:
                             interp.ev("action", i)
                             interp.ev("action-end", i)
                             raise ActBase(f"action {i}")
+                    if callable(action) and reg.get("shape") == "object":
+                        # a callable object (an instance of a class with __call__) is a callable too
+                        action = _callable_object(action)
+                    elif callable(action) and reg.get("shape") == "partial":
+                        import functools
+
+                        action = functools.partial(action)
                     fn = self.make_task(i, reg, stop)
                     if reg["via"] == "module":
                         v = await start_service_task(fn, f"svc{i}", teardown_action=action)
